@@ -60,7 +60,7 @@ def subsets_workload(res, ctx, rng):
     strings = logs.Strings(rng)
     keys = logs.OPTIONAL_KEYS
     todo = [(), tuple(keys)] + [(k,) for k in keys] + list(itertools.combinations(keys, 2))
-    for _ in range(ctx.pick(2000, 200000) // ctx.nshards):
+    for _ in range(ctx.pick(3000, 1000000) // ctx.nshards):
         todo.append(tuple(k for k in keys if rng.random() < rng.choice((0.1, 0.3, 0.5, 0.8))))
     for i, subset in enumerate(todo):
         if i < 2 + len(keys) + len(keys) * (len(keys) - 1) // 2 and not ctx.mine(i):
